@@ -204,7 +204,8 @@ class P:
             elif self.at("(") and e[0] == "path":
                 e = ("call", e[1], self.args())
             elif self.at("?"):
-                raise Unsupported("`?` operator")
+                self.eat("?")
+                e = ("try", e)
             else:
                 return e
 
@@ -247,6 +248,22 @@ class P:
             if len(es) == 1 and not trailing:
                 return ("paren", es[0])
             return ("tuple", es)
+        if v == "|" or v == "||":
+            params = []
+            if v == "||":
+                self.next()
+            else:
+                self.eat("|")
+                while not self.at("|"):
+                    params.append(self.pattern())
+                    if self.at(":"):
+                        self.eat(":")
+                        self.ty()
+                    if self.at(","):
+                        self.eat(",")
+                self.eat("|")
+            body = self.expr(nostruct)
+            return ("closure", params, body)
         if v == "if":
             return self.if_()
         if v == "match":
@@ -709,7 +726,9 @@ def parse_file(src, module):
             p.next()
             name = p.next()
             p.eat("=")
-            res["aliases"][name] = p.ty()
+            t_ = p.ty()
+            if not impl_stack:
+                res["aliases"][name] = t_
             p.eat(";")
         elif v == "const" and p.kind(1) == "id" and p.peek(2) == ":":
             p.next()
@@ -814,10 +833,22 @@ def parse_file(src, module):
                 if p.peek(j) == "for":
                     is_trait = True
                 j += 1
-            if is_trait or p.peek(1) == "<":
+            if p.peek(1) == "<":
                 while not p.at("{"):
                     p.next()
                 p.skip_balanced("{", "}")
+            elif is_trait:
+                # impl Trait for Type { … }: functions are registered under the type
+                toks_ = []
+                while not p.at("{"):
+                    toks_.append(p.next())
+                k_ = toks_.index("for")
+                tname = "".join(toks_[k_ + 1:])
+                if re.match(r"^[\w:]+$", tname) and "<" not in "".join(toks_):
+                    impl_stack.append(q + tname.split("::")[-1] if "::" not in tname else tname)
+                    p.eat("{")
+                else:
+                    p.skip_balanced("{", "}")
             else:
                 p.next()
                 impl_stack.append(q + p.next())
@@ -848,7 +879,8 @@ def parse_file(src, module):
                         p.next(); p.next()
                         selfp = "ref"
                     elif p.at("&") and p.peek(1) == "mut" and p.peek(2) == "self":
-                        raise Unsupported("&mut self")
+                        p.next(); p.next(); p.next()
+                        selfp = "mut"
                     elif p.at("self"):
                         p.next()
                         selfp = "val"
